@@ -8,7 +8,8 @@ from .simsched import Scheduler, SimQueue
 
 
 class FCfg:
-    def __init__(self, n_workers=2, mulp=False, calls=((3, 1),), exact=False, none_inputs=False, input_kind=0, idle_gen=False):
+    def __init__(self, n_workers=2, mulp=False, calls=((3, 1),), exact=False, none_inputs=False, input_kind=0, idle_gen=False,
+                 body_raises=False):
         """calls: (items, chunk_size) — chunk size is 1 for mul_p_map;
         exact: the caller takes exactly as many results as there are items (zip / islice style) and drops the generator
         instead of running it into StopIteration (`Cfg.exact` in the model: no further poll of the result queue after the
@@ -22,6 +23,7 @@ class FCfg:
         # before every call the caller also creates a call object that it never iterates (dropped at the end): a generator
         # that was not started has done nothing
         self.idle_gen = idle_gen
+        self.body_raises = body_raises  # the with-body raises after its last call (same steps in the model)
 
     def cap(self):
         return multiprocessing.cpu_count() if self.mulp else self.n_workers
@@ -32,7 +34,7 @@ class FCfg:
 
     def to_json(self):
         return dict(n_workers=self.n_workers, mulp=self.mulp, calls=self.calls, exact=self.exact, none_inputs=self.none_inputs,
-                    input_kind=self.input_kind, idle_gen=self.idle_gen)
+                    input_kind=self.input_kind, idle_gen=self.idle_gen, body_raises=self.body_raises)
 
 
 def f(x):
@@ -106,22 +108,30 @@ class FSimEnv:
                 data = shaped(k, (core.pool_input(k, i, self.cfg.none_inputs) for i in range(n)))
                 self.results.append(list(maps.mul_p_map(f, data, self.cfg.n_workers)))
         else:
-            with pools.FunctorMap(f, self.cfg.n_workers) as m:
-                for k, (n, cs) in enumerate(self.cfg.calls):
-                    res = []
-                    self.results.append(res)
-                    if self.cfg.idle_gen:
-                        ghosts = getattr(self, "ghosts", [])
-                        ghosts.append(m(iter([900 + k, 901 + k, 902 + k]), cs))
-                        self.ghosts = ghosts
-                    it = m(shaped(k, (core.pool_input(k, i, self.cfg.none_inputs) for i in range(n))), cs)
-                    if self.cfg.exact and n > 0:
-                        for _ in range(n):
-                            res.append(next(it))
-                        it.close()
-                    else:
-                        for x in it:
-                            res.append(x)
+            class BodyRaised(Exception):
+                pass
+
+            try:
+                with pools.FunctorMap(f, self.cfg.n_workers) as m:
+                    for k, (n, cs) in enumerate(self.cfg.calls):
+                        res = []
+                        self.results.append(res)
+                        if self.cfg.idle_gen:
+                            ghosts = getattr(self, "ghosts", [])
+                            ghosts.append(m(iter([900 + k, 901 + k, 902 + k]), cs))
+                            self.ghosts = ghosts
+                        it = m(shaped(k, (core.pool_input(k, i, self.cfg.none_inputs) for i in range(n))), cs)
+                        if self.cfg.exact and n > 0:
+                            for _ in range(n):
+                                res.append(next(it))
+                            it.close()
+                        else:
+                            for x in it:
+                                res.append(x)
+                    if self.cfg.body_raises:
+                        raise BodyRaised("the with-body raises after its last call")
+            except BodyRaised:
+                pass
 
     def expected(self):
         return [[f(core.pool_input(k, i, self.cfg.none_inputs)) for i in range(n)] for k, (n, cs) in enumerate(self.cfg.calls)]
